@@ -123,7 +123,7 @@ def stereo_mols(tier):
     from rdkit import Chem
     from rdkit.Chem import AllChem
     out = []
-    fam = inputs.ring_stereo_family()[:: (3 if tier == 'quick' else 1)] + ['C[C@H](N)C(=O)O', 'C/C=C/C', 'C/C=C\\C', 'C[C@H](O)/C=C/C', 'CC=[C@]=CC', 'C[C@@H]1CCCC[C@H]1C', 'F[C@](Cl)(Br)I']
+    fam = inputs.ring_stereo_family()[:: (3 if tier == 'quick' else 1)] + ['C[C@H](N)C(=O)O', 'C/C=C/C', 'C/C=C\\C', 'C[C@H](O)/C=C/C', 'C[C@@H]1CCCC[C@H]1C', 'F[C@](Cl)(Br)I'] + ALLENES_2D
     for t_ in ('C[C{0}H](O)[C{1}H](O)[C{2}H](O)C', 'C[C{0}H]1C[C{1}H](C)C[C{2}H](C)C1', 'O[C{0}H]1[C{1}H](O)[C{2}H]1O', 'C[C{0}H](O)[C{1}H](O)C'):
         for cmb in itertools.product(('@', '@@'), repeat=t_.count('{')):
             fam.append(t_.format(*cmb))
@@ -146,7 +146,23 @@ def stereo_mols(tier):
             a.xy = (p.x, p.y)
         m.flush_cache()
         out.append((s, m))
+        if s in ALLENES_2D:
+            # the wedge the writer picks, and the branch of the reader it ends in, depend on the drawing: rotated and mirrored drawings of the same labelled molecule
+            import math
+            for ang, mirror in ((73, False), (180, False), (0, True), (131, True)):
+                mm = m.copy()
+                r = math.radians(ang)
+                for _, a in mm.atoms():
+                    x, y = a.x, a.y
+                    if mirror:
+                        x = -x
+                    a.xy = (x * math.cos(r) - y * math.sin(r), x * math.sin(r) + y * math.cos(r))
+                mm.flush_cache()
+                out.append(('%s drawn rotated %d%s' % (s, ang, ' mirrored' if mirror else ''), mm))
     return out
+
+
+ALLENES_2D = ['CC=[C@]=CC', 'CC(Cl)=[C@]=C(C)Br', 'CC(Br)=[C@]=C(C)Cl', 'CC(Cl)=[C@@]=C(C)Br', 'CC(F)=[C@]=C(Cl)C', 'OC(C)=[C@]=C(N)CC', 'FC=[C@]=C(Cl)Br', 'CC(C)C=[C@@]=C(C)CC']
 
 
 def run_roundtrip(shard):
